@@ -254,7 +254,7 @@ def _inject(cls, name, before):
     return True
 
 
-def attach(seed, shard, tier='quick', p=None, quota=None):
+def attach(seed, shard, tier='quick', p=None, quota=None, tables_rate=1.0):
     """outermost wrappers (attach after the other monitors).  Rate and quota bound the cost: a twin call costs about one real call."""
     if STATE['attached'] or os.environ.get('PYBUFRKIT_VERIF') != '1' or os.environ.get('VERIF_TWINS', '1') == '0':
         return STATE['attached']
@@ -267,8 +267,54 @@ def attach(seed, shard, tier='quick', p=None, quota=None):
     ok = _inject(Decoder, 'process', lambda self, a, kw: see_bytes(a[0] if a else kw.get('s')))
     ok = _inject(Encoder, 'process', lambda self, a, kw: see_encoder_input(a[0] if a else kw.get('s'))) and ok
     ok = _inject(NodePathParser, 'parse', lambda self, a, kw: see_path(self, a[0] if a else kw.get('path_expr'))) and ok
+    from pybufrkit.tables import TableGroupCacheManager
+    ok = _inject_classmethod(TableGroupCacheManager, 'get_table_group', see_table_numbers, rate=tables_rate) and ok
     STATE['attached'] = ok
     return ok
+
+
+def see_table_numbers(a, kw, rng=None):
+    """the other tables roots are asked for the same table numbers first (what another coder with a site directory does)"""
+    from pybufrkit.tables import TableGroupCacheManager
+    rng = rng or STATE['rng'] or random.Random(1)
+    names = ('tables_root_dir', 'master_table_number', 'originating_centre', 'originating_subcentre', 'master_table_version',
+             'local_table_version', 'normalize')
+    args = dict(zip(names, a))
+    args.update(kw)
+    if args.get('tables_root_dir') and os.path.realpath(args['tables_root_dir']).startswith(os.path.realpath(os.path.dirname(roots()['wide']))):
+        return
+    STATE['depth'] += 1
+    try:
+        for which in rng.sample(['wide', 'reduced'], rng.choice([1, 2])):
+            a2 = dict(args, tables_root_dir=roots()[which])
+            a2['normalize'] = True
+            injected['tables/%s' % which] += 1
+            try:
+                TableGroupCacheManager.get_table_group(**a2)
+            except Exception:
+                injected['twin_calls_refused'] += 1
+    finally:
+        STATE['depth'] -= 1
+
+
+def _inject_classmethod(cls, name, before, rate=1.0):
+    orig = cls.__dict__.get(name)
+    if orig is None:
+        return False
+    f = orig.__func__
+
+    def wrapper(c, *a, **kw):
+        if (STATE['depth'] == 0 and STATE['rng'] is not None and injected['injections'] < STATE['quota']
+                and STATE['rng'].random() < STATE['p'] * rate):
+            injected['injections'] += 1
+            try:
+                before(a, kw)
+            except Exception:
+                injected['injection_failed'] += 1
+        return f(c, *a, **kw)
+    wrapper.__wrapped__ = f
+    setattr(cls, name, classmethod(wrapper))
+    return True
 
 
 class paused(object):
